@@ -27,6 +27,7 @@ mod c01;
 mod c18;
 mod c19;
 mod c05;
+mod c20;
 
 use common::*;
 
@@ -76,6 +77,7 @@ fn main() {
         "C18" => c18::run(&ctx),
         "C19" => c19::run(&ctx),
         "C05" => c05::run(&ctx),
+        "C20" => c20::run(&ctx),
         _ => machinery_error(format!("unknown property id {id}")),
     }
 }
